@@ -30,7 +30,10 @@ ASSUMPTIONS = ['reference model: the status seen inside a node is a function of 
 # pattern: capture control_status_ctx() outside, call internal_convert(fn, ctx)() further in) - the same object is then on the
 # stack twice with the parent's context in between
 KINDS = ('convert', 'convlam', 'rec', 'dnc', 'iconv_E', 'iconv_D', 'iconv_UT', 'iconv_UF', 'with_E', 'with_D', 'with_U', 'plain', 'lam',
-         'iconv_P')
+         'iconv_P',
+         # a generator function wrapped by do_not_convert: the wrapper returns the generator at once, its body runs when the
+         # caller iterates it - in the CALLER's context, which must also be what the caller sees between two items
+         'dncgen')
 SRC = '''
 def run_node(i):
     obs(i, 'in')
@@ -79,6 +82,28 @@ def run_with(i):
 
 
 run_lam = lambda i: run_node(i)
+
+
+def run_gen(i):
+    obs(i, 'in')
+    maybe_raise(i, 'entry')
+    for j in children(i):
+        b = cur()
+        if catches(i):
+            try:
+                NODES[j](j)
+            except (NodeError, NodeBaseError):
+                obs(i, 'caught')
+            finally:
+                chk(i, j, b)
+        else:
+            try:
+                NODES[j](j)
+            finally:
+                chk(i, j, b)
+    yield i
+    maybe_raise(i, 'exit')
+    obs(i, 'out')
 '''
 
 
@@ -163,6 +188,8 @@ class World(object):
         fn = malt.experimental.do_not_convert(base)
       elif k == 'iconv_P':
         fn = self._captured_ctx_node(i, base)
+      elif k == 'dncgen':
+        fn = self._dnc_generator_node(i)
       elif k.startswith('iconv_'):
         st = {'E': S.ENABLED, 'D': S.DISABLED, 'U': S.UNSPECIFIED}[k[6]]
         ctx = ag_ctx.ControlStatusCtx(st)
@@ -171,6 +198,17 @@ class World(object):
       elif k.startswith('with_'):
         fn = base
       self.nodes.append(fn)
+
+  def _dnc_generator_node(self, i):
+    api = _S['api']
+    malt = _S['malt']
+    wrapped = malt.experimental.do_not_convert(_S['g']['run_gen'])
+
+    def call(j):
+      for _ in wrapped(j):
+        self.obs(j, 'between')
+      return j
+    return api.autograph_artifact(call)
 
   def _captured_ctx_node(self, i, base):
     api = _S['api']
@@ -252,6 +290,8 @@ class World(object):
             run(j, inside, cur)
           finally:
             out.append((i, 'after-child', j, True))
+      if kind == 'dncgen':
+        out.append((i, 'between', inside))
       if self.raiser is not None and self.raiser[:2] == (i, 'exit'):
         raise NodeError()
       out.append((i, 'out', cur if kind.startswith('with_') else inside))
